@@ -92,6 +92,64 @@ def checkWrap (text : List Int) (w : Int) (od : Options Int) (out : List Int) : 
 /-- non-whitespace clusters, line by line (the separators themselves are not text) -/
 def nonWsBy (sep t : List Int) : List Tok := (splitOn t sep).flatMap nonWs
 
+/-- paragraph mode: separators of both kinds are not text -/
+def nonWsBy2 (psep sep t : List Int) : List Tok := (splitOn t psep).flatMap (nonWsBy sep)
+
+def paraAffixes (od : Options Int) : Bool :=
+  let parts := splitOn od.paraSep od.lineSep
+  !(parts.headD []).isEmpty || (parts.length > 1 && !(parts.getLastD []).isEmpty)
+
+/-- widest affix of the paragraph separator, in clusters -/
+def maxAffix (od : Options Int) : Nat :=
+  let parts := splitOn od.paraSep od.lineSep
+  max (toks (parts.headD [])).length (if parts.length > 1 then (toks (parts.getLastD [])).length else 0)
+
+/-- where two token lists first differ (for the failure message) -/
+def firstDiff (a b : List Tok) : String :=
+  let rec go (i : Nat) : List Tok → List Tok → String
+    | x :: xs, y :: ys => if x == y then go (i + 1) xs ys else s!"at {i}: {showText (x :: xs.take 3).flatten} vs {showText (y :: ys.take 3).flatten}"
+    | [], y :: ys => s!"at {i}: end vs {showText (y :: ys.take 3).flatten}"
+    | x :: xs, [] => s!"at {i}: {showText (x :: xs.take 3).flatten} vs end"
+    | [], [] => "none"
+  go 0 a b
+
+/-- a proper, non-empty suffix of `a` is a prefix of `b` -/
+def overlaps (a b : List Int) : Bool :=
+  (List.range a.length).any fun k => k > 0 && (a.drop k).isPrefixOf b && !(a.drop k).isEmpty
+
+/-- the two separators cannot be confused with one another when they meet -/
+def sepsIndependent (od : Options Int) : Bool :=
+  !(overlaps od.lineSep od.paraSep || overlaps od.paraSep od.lineSep)
+
+/-- in some paragraph the word next to a visible affix of the paragraph separator does not fit
+on a line together with that affix (so Wrap hyphenates through its placeholder) -/
+def affixWordTooLong (od : Options Int) (text : List Int) (w : Int) : Bool :=
+  let w' : Int := if w < 2 then 2 else w
+  match paraCalls (.root text od) od with
+  | .error _ => false
+  | .ok cs => cs.any fun (p, pre, suf) =>
+    let ws := Spec.words tkA (toks (flatText p od.lineSep))
+    let first : Int := (ws.headD []).length
+    let last : Int := (ws.getLastD []).length
+    let np : Int := (toks pre).length
+    let ns : Int := (toks suf).length
+    (np > 0 && first + np > w') || (ns > 0 && last + ns > w')
+
+def checkNonWsPara (op : String) (od : Options Int) (text out : List Int) (hyphensAdded : Bool) (w : Int := 1000000) : String :=
+  let a := (nonWsBy2 od.paraSep od.lineSep text).flatten.map fun r => [r]
+  let b := (nonWsBy2 od.paraSep od.lineSep out).flatten.map fun r => [r]
+  let good := if hyphensAdded then subseqHy a b else a == b
+  if good then "ok"
+  else if !wsStable ([0x20] ++ flatText (flatText text od.paraSep) od.lineSep ++ [0x20]) then
+    s!"fail:C07 not-WsStable input: non-whitespace clusters changed by {op} (paragraph mode)"
+  else if !sepsIndependent od ∧ !(od.paraSep.length % od.lineSep.length == 0 ∧
+      (List.replicate (od.paraSep.length / od.lineSep.length) od.lineSep).flatten == od.paraSep) then
+    "skip:separators-overlap"
+  else if paraAffixes od ∧ op == "Wrap" ∧ affixWordTooLong od text w then
+    s!"fail:C07 word next to the paragraph separator's visible affix does not fit the width: non-whitespace clusters changed by {op}"
+  else if paraAffixes od then s!"fail:C07 paragraph separator with visible affixes: non-whitespace clusters changed by {op} expected-same {firstDiff (a.filter (· != [0x2D])) (b.filter (· != [0x2D]))}"
+  else s!"fail:C07 non-whitespace clusters changed by {op} (paragraph mode)"
+
 def checkNonWs (op : String) (sep text out : List Int) (hyphensAdded : Bool) : String :=
   -- compared as the code points of the non-whitespace clusters, so that a hyphen that merely
   -- joins the preceding cluster (after a Prepend character) is still recognised as an addition
@@ -192,7 +250,7 @@ def layoutStep (pid : String) (a : List String) (src : Obs) (res : Obs) : String
     | ["wrap", _, w, o], .ed out _ _ _ =>
       match parseInt w, effOpts so o with
       | some w, some od =>
-        if parasOn od then "skip:paragraph-mode"
+        if parasOn od then (if pid == "C07" then checkNonWsPara "Wrap" od text out true w else "skip:paragraph-mode")
         else if pid == "C06" then checkWrap text w od out
         else if pid == "C07" then checkNonWs "Wrap" od.lineSep text out true
         else "skip:op"
@@ -200,7 +258,7 @@ def layoutStep (pid : String) (a : List String) (src : Obs) (res : Obs) : String
     | ["justify", _, w, o], .ed out _ _ _ =>
       match parseInt w, effOpts so o with
       | some w, some od =>
-        if parasOn od then "skip:paragraph-mode"
+        if parasOn od then (if pid == "C07" then checkNonWsPara "Justify" od text out false else "skip:paragraph-mode")
         else if pid == "C12" then checkJustify text w od out
         else if pid == "C07" then checkNonWs "Justify" od.lineSep text out false
         else "skip:op"
@@ -208,7 +266,7 @@ def layoutStep (pid : String) (a : List String) (src : Obs) (res : Obs) : String
     | ["align", _, al, w, o], .ed out _ _ _ =>
       match parseInt al, parseInt w, effOpts so o with
       | some al, some w, some od =>
-        if parasOn od ∧ al ≥ 1 ∧ al ≤ 3 then "skip:paragraph-mode"
+        if parasOn od ∧ al ≥ 1 ∧ al ≤ 3 then (if pid == "C07" then checkNonWsPara "Align" od text out false else "skip:paragraph-mode")
         else if pid == "C13" then checkAlign text al w od out
         else if pid == "C07" then checkNonWs "Align" od.lineSep text out false
         else "skip:op"
